@@ -35,7 +35,7 @@ REACH = {"quick": {"cls:vector": 1000, "cls:frame": 2000, "cls:geojson": 500, "c
                    "wide-chars": 500, "zero-row-frame": 100, "geojson:null-geometry": 150, "multi-block": 300}}
 
 WIDE = ["日本語", "ｗｉｄｅ", "é", "\U0001F600", "漢", "ö", "áb"]
-MULTI = ["line1\nline2", "a\nb\nc", "tab\there"]
+MULTI = ["line1\nline2", "a\nb\nc", "tab\there", "cr\r\nlf", "lone\rcr", "sep\u2028arator", "form\x0cfeed", "next\x85line", "para\u2029graph"]
 KINDS = ["bool", "int", "float", "str", "lstr", "ustr", "date", "datetime", "obool", "obj", "float32", "int32", "uint64", "bytes", "timedelta", "complex"]
 
 def _values(rng, kind, n):
@@ -97,7 +97,11 @@ def _ulen(s):
 
 def _parse_frame(res, text, names, labels, nrow, max_rows, ctx):
     """Parse the documented layout; returns nothing, records violations."""
-    lines = text.split("\n")
+    # Lines of the rendering are the lines Python itself sees (str.splitlines): the library cuts multi-line cells at
+    # their first such boundary, so on a faithful rendering this equals text.split("\n").
+    lines = text.splitlines()
+    if text.endswith("\n"):
+        lines.append("")
     if not names:
         if text != "":
             res.violate("frame:zero-column-not-empty", f"0-column frame rendered as {text!r}")
